@@ -365,6 +365,8 @@ class ExprMixin:
             f = self.contains(st, l, r)
             return o.bool_(z3.Not(f) if isinstance(op, ast.NotIn) else f)
         lt, rt = o.tyof(st, l), o.tyof(st, r)
+        if cx.spec is not None and {lt, rt} <= {"int", None, "none"} and "int" in (lt, rt):
+            lt = rt = "int"      # contract text: optional numeric options are compared under an `is None or` guard
         if lt == "int" and rt == "int":
             a, b = o.i(l), o.i(r)
         elif lt == "float" and rt == "float":
@@ -414,6 +416,11 @@ class ExprMixin:
                     return z3.Or([z3.Select(items, j) == x.e for j in range(nn.as_long())] or [z3.BoolVal(False)])
                 f = w.fun("seq_contains", "items", "int", "V", "bool")
                 return f(st.rd("$items", r), n, x.e)
+        if self.o.spec_depth > 0 and c.e is not None:
+            # contract text: membership in an optional list option, written under a guard
+            r = o.r(c)
+            f = w.fun("seq_contains", "items", "int", "V", "bool")
+            return f(st.rd("$items", r), st.rd("$len", r), x.e)
         raise Unsupported("membership in %s" % t)
 
     def ev_BinOp(self, st, e, cx):
